@@ -46,7 +46,7 @@ pub fn static_info(property: &str) -> Value {
         "oracles": ["reference models written for this harness (Vec/BTreeMap multigraph, label array, reachability DFS)"]
     });
     let expected_probes: Vec<&str> = match property {
-        "C19" => vec!["uf_u8_reached_256", "uf_self_union_out_of_range"],
+        "C19" => vec!["uf_u8_reached_256", "uf_self_union_out_of_range", "uf_one_root_wins_hundreds_of_unions"],
         _ => vec![],
     };
     json!({
